@@ -122,12 +122,41 @@ def source_value(ctx, text):
     toks = T.from_json(lx['tokens'])
     srcs = T.find_items(T.items(toks), 'const', 'SOURCE')
     ty, val = T.const_parts(srcs[0])
+    # `concat!("..", "..")` of string literals evaluates to their concatenation: the property is about the VALUE of SOURCE
+    if len(val) == 3 and T.is_i(val[0], 'concat') and T.is_p(val[1], '!') and val[2].k == 'group':
+        parts = T.split_commas(val[2].v[1])
+        if all(len(p_) == 1 and p_[0].k == 'lit' and p_[0].v[0] == 'string' and isinstance(p_[0].v[1], str) for p_ in parts):
+            val = [Tok('lit', ('string', ''.join(p_[0].v[1] for p_ in parts)))]
     return val, toks
+
+
+def long_sources(base):
+    """sources of 5-20 KB whose multi-byte characters fall on every byte alignment (for code that treats long text in pieces)"""
+    out = []
+    for ch in ('\u00e9', '\u20ac', '\U0001F600', 'a\u00e9'):
+        for pad in range(4):
+            out.append('//' + 'x' * pad + ch * 3000 + '\n' + base)
+            out.append(base + '//' + 'y' * pad + ch * 6000 + '\n')
+    return out
 
 
 def native_corpus(ctx, base, only_first_failure=False):
     det = {'checked': 0}
     bad = None
+    for src in long_sources(base):
+        for fmt in (False,):
+            r = ctx.S.oracle.gen(src, {'rustfmt': fmt})
+            if 'ok' not in r:
+                continue
+            val, _ = source_value(ctx, r['ok'])
+            det['checked'] += 1
+            good = len(val) == 1 and val[0].k == 'lit' and val[0].v == ('string', src)
+            if good:
+                ctx.replayed_ok += 1
+            elif bad is None:
+                got = val[0].v[1] if (len(val) == 1 and val[0].k == 'lit') else T.text(val)[:80]
+                diff_at = next((i for i, (x, y) in enumerate(zip(got, src)) if x != y), min(len(got), len(src))) if isinstance(got, str) else None
+                bad = {'wgsl_head': src[:60], 'source_bytes': len(src.encode()), 'first_difference_at_char': diff_at, 'wgsl': src}
     for i, extra in enumerate(NASTY):
         for src in (extra + base, base + extra, base.replace('\n', '\n' + extra, 1)):
             for fmt in (False, True):
@@ -168,5 +197,15 @@ def native_variants(ctx, base):
     return rest(t1) != rest(t2), {'wgsl': base}
 
 
+def native(ctx):
+    base = open(FIXTURE).read()
+    rep, det = native_corpus(ctx, base)
+    if rep:
+        ctx.report('C16/escaping', f'embedded source does not round-trip: { {k: v for k, v in (det.get("first") or {}).items() if k != "wgsl"} }', det, True, det)
+    rep, det = native_variants(ctx, base)
+    if rep:
+        ctx.report('C16/variants-differ', 'include and embedded variants differ outside SOURCE on the real build', det, True, det)
+
+
 if __name__ == '__main__':
-    sys.exit(main('C16', run))
+    sys.exit(main('C16', run, native))
